@@ -64,9 +64,12 @@ class SingleFilterSet(FilterSetInterface[FilterValueT], metaclass=ABCMeta):
     async def put(self, name: str, value: FilterValueT) -> None:
         if name == self.name:
             await self.replace_active(value)
+        else:
+            # not stored: must not be acknowledged either
+            raise NotImplementedError()
 
     async def delete(self, name: str) -> None:
-        if name == self.name:
+        if name == self.name and await self.get_active() is not None:
             await self.replace_active(None)
         else:
             raise KeyError(name)
@@ -78,7 +81,7 @@ class SingleFilterSet(FilterSetInterface[FilterValueT], metaclass=ABCMeta):
         raise NotImplementedError()
 
     async def set_active(self, name: str) -> None:
-        if name != self.name:
+        if name != self.name or await self.get_active() is None:
             raise KeyError(name)
 
     async def get(self, name: str) -> FilterValueT:
